@@ -131,6 +131,50 @@ theorem interleaving_once_window (hash : Bytes → H) (Hs : List (Log P)) (ss : 
   rw [e]
   exact interleaving_once hash Hs ss (stripExpire m) hH hd hstreams hcover hm
 
+/-- **1''. timers as events** (round 5, review E #1).  `firstEvent` starts one timer goroutine per delivered log;
+since the repair of the unlocked `delete(visited, …)` every access to the map — the loop's test-and-set and each
+timer's delete — is a critical section of one mutex, so the timer goroutines are concurrent SOURCES like the
+endpoints: `m` is ANY interleaving of the endpoint streams and of the timer streams (`timerStreams ts`, each timer
+fires once; any set of timers, any number firing back to back).  As long as each fires after the last un-removed
+observation of its identity (1500 s after the delivery in the code: `dedup_window_is_1500s`), the handlers receive
+each log exactly once. -/
+theorem interleaving_once_timers (hash : Bytes → H) (Hs : List (Log P)) (ss : List (List (Item H P)))
+    (ts : List (Ident H)) (m : List (Item H P))
+    (hH : ∀ l ∈ Hs, l.removed = false ∧ 0 < l.blockN)
+    (hd : Hs.Pairwise (fun a b => ident hash false a ≠ ident hash false b))
+    (hstreams : ∀ s ∈ ss, ∀ x ∈ s, StreamItem Hs x)
+    (hcover : ∀ l ∈ Hs, ∃ s ∈ ss, Item.log l ∈ s)
+    (hm : Interleaving (ss ++ timerStreams ts) m)
+    (hw : WithinWindow hash false m) :
+    (firstEvent hash m).Perm (Hs.map (·.payload)) := by
+  have e : firstEvent hash m = firstEvent hash (stripExpire m) := by
+    unfold firstEvent
+    rw [run_eq_map_runL, run_eq_map_runL, runL_strip hash false m [] hw]
+  rw [e]
+  apply interleaving_once hash Hs _ (stripExpire m) hH hd ?_ ?_ hm.map_strip
+  · intro s hs x hx
+    obtain ⟨s0, h0, rfl⟩ := List.mem_map.1 hs
+    obtain ⟨hx0, hne⟩ := mem_stripExpire.1 hx
+    rcases List.mem_append.1 h0 with h0 | h0
+    · exact hstreams s0 h0 x hx0
+    · obtain ⟨i, _, rfl⟩ := List.mem_map.1 h0
+      simp at hx0
+      exact absurd hx0 (hne i)
+  · intro l hl
+    obtain ⟨s, hs, hls⟩ := hcover l hl
+    exact ⟨stripExpire s, List.mem_map.2 ⟨s, List.mem_append_left _ hs, rfl⟩,
+      mem_stripExpire.2 ⟨hls, fun i h => by cases h⟩⟩
+
+example : Interleaving ([s1, s2] ++ timerStreams [ident (fun b => b) false lc, ident (fun b => b) false la])
+      (mix ++ [.expire (ident (fun b => b) false la), .expire (ident (fun b => b) false lc)]) ∧
+    WithinWindow (fun b => b) false (mix ++ [.expire (ident (fun b => b) false la), .expire (ident (fun b => b) false lc)]) ∧
+    firstEvent (fun b => b) (mix ++ [.expire (ident (fun b => b) false la), .expire (ident (fun b => b) false lc)]) = [12, 10, 11] := by
+  refine ⟨?_, ?_, by decide⟩
+  · exact .next 1 rfl (.next 0 rfl (.next 1 rfl (.next 0 rfl (.next 1 rfl (.next 0 rfl (.next 1 rfl (.next 1 rfl
+      (.next 3 rfl (.next 2 rfl (.done (by decide)))))))))))
+  · simp only [mix, List.cons_append, List.nil_append, WithinWindow, Unobserved, and_true]
+    refine ⟨?_, ?_⟩ <;> intro l hl <;> simp at hl
+
 /-- … and outside the window the same log is delivered again: the window is what bounds "exactly once". -/
 theorem redelivered_after_window (hash : Bytes → H) (l : Log P) (hr : l.removed = false) :
     firstEvent hash [.log l, .expire (ident hash false l), .log l] = [l.payload, l.payload] := by
@@ -306,6 +350,132 @@ def assignFaithful (ev : String) (bind node : StructDef) (a : String × Src) : B
       lookupS bind.fields src == some "[]common.Address"
   | _, _ => false
 
+/-- the WHOLE function of a table entry as the property admits it (go/printer text, line by line, white space
+normalised; `«B»` = element type of transitChan, `«W»` = the Watch method, `&«L»` = the literal of the node struct, whose
+content `assigns` carries): make the channels, start ONE goroutine that subscribes, reports a failed
+subscription with `getWsIndex(ctx)`, and loops: context done → return; subscription error → report, continue;
+a binding event → `pre` (nothing, or the address→bytes loop of LogGrouping), build `l`, wrap it in `LogCommon`, send it
+(or return when the context is done).  NOTHING else: a statement after the literal that changes a field, a second
+send, a filter on the values makes the list differ. -/
+def entryBodyLines (param recv : String) (pre : List String) : List String :=
+  ["func(ctx context.Context, " ++ param ++ ") (chan interface{}, chan error) {",
+    "out := make(chan interface{})",
+    "errc := make(chan error)",
+    "opt := &bind.WatchOpts{}",
+    "go func() {",
+    "transitChan := make(chan *«B»)",
+    "defer close(transitChan)",
+    "defer close(errc)",
+    "defer close(out)",
+    "sub, err := " ++ recv ++ ".«W»(opt, transitChan)",
+    "if err != nil {",
+    "replyError(ctx, errc, &OnchainError{err: errors.Errorf(\"SubscribeEvent err: %w\", err), Idx: getWsIndex(ctx)})",
+    "return",
+    "}",
+    "defer sub.Unsubscribe()",
+    "for {",
+    "var log *LogCommon",
+    "select {",
+    "case <-ctx.Done():",
+    "return",
+    "case err, ok := <-sub.Err():",
+    "if !ok {",
+    "return",
+    "}",
+    "replyError(ctx, errc, &OnchainError{err: errors.Errorf(\"SubscribeEvent err: %w\", err), Idx: getWsIndex(ctx)})",
+    "continue",
+    "case i, ok := <-transitChan:",
+    "if !ok {",
+    "return",
+    "}"] ++ pre ++
+   ["l := &«L»",
+    "log = &LogCommon{",
+    "Tx: i.Raw.TxHash.Hex(),",
+    "BlockN: i.Raw.BlockNumber,",
+    "Removed: i.Raw.Removed,",
+    "Raw: i.Raw,",
+    "log: l,",
+    "}",
+    "}",
+    "select {",
+    "case <-ctx.Done():",
+    "return",
+    "case out <- log:",
+    "}",
+    "}",
+    "}()",
+    "return out, errc",
+    "}"]
+
+/-- the address→bytes loop of the LogGrouping entry (the ONE admitted transformation) -/
+def groupingLoop : List String :=
+  ["var participants [][]byte",
+    "for _, p := range i.NodeId {",
+    "id := p.Bytes()",
+    "participants = append(participants, id)",
+    "}"]
+
+/-- the LogUpdateRandom entry as it is: the same function with debug prints to stdout (no influence on what is delivered) -/
+def updateRandomBody : List String :=
+  ["func(ctx context.Context, proxy *dosproxy.DosproxySession) (chan interface{}, chan error) {",
+    "out := make(chan interface{})",
+    "errc := make(chan error)",
+    "opt := &bind.WatchOpts{}",
+    "go func() {",
+    "defer fmt.Println(\"[Onchain] end SubscribeLogUpdateRandom\")",
+    "transitChan := make(chan *«B»)",
+    "defer close(transitChan)",
+    "defer close(errc)",
+    "defer close(out)",
+    "sub, err := proxy.Contract.«W»(opt, transitChan)",
+    "if err != nil {",
+    "replyError(ctx, errc, &OnchainError{err: errors.Errorf(\"SubscribeEvent err: %w\", err), Idx: getWsIndex(ctx)})",
+    "return",
+    "}",
+    "defer sub.Unsubscribe()",
+    "for {",
+    "var log *LogCommon",
+    "select {",
+    "case <-ctx.Done():",
+    "fmt.Println(\"[Onchain] ctx.Done\")",
+    "return",
+    "case err, ok := <-sub.Err():",
+    "if !ok {",
+    "fmt.Println(\"[Onchain] sub.Err !ok\")",
+    "return",
+    "}",
+    "fmt.Print(fmt.Errorf(\"[Onchain] sub.Err %+v \\n\", err))",
+    "replyError(ctx, errc, &OnchainError{err: errors.Errorf(\"SubscribeEvent err: %w\", err), Idx: getWsIndex(ctx)})",
+    "continue",
+    "case i, ok := <-transitChan:",
+    "if !ok {",
+    "fmt.Println(\"[Onchain] transitChan !ok\")",
+    "return",
+    "}",
+    "l := &«L»",
+    "log = &LogCommon{",
+    "Tx: i.Raw.TxHash.Hex(),",
+    "BlockN: i.Raw.BlockNumber,",
+    "Removed: i.Raw.Removed,",
+    "Raw: i.Raw,",
+    "log: l,",
+    "}",
+    "}",
+    "select {",
+    "case <-ctx.Done():",
+    "return",
+    "case out <- log:",
+    "}",
+    "}",
+    "}()",
+    "return out, errc",
+    "}"]
+
+def expectedBody (ev : String) (cr : Bool) : List String :=
+  if ev == "LogUpdateRandom" then updateRandomBody
+  else if cr then entryBodyLines "cr *commitreveal.CommitrevealSession" "cr.Contract" []
+  else entryBodyLines "proxy *dosproxy.DosproxySession" "proxy.Contract" (if ev == "LogGrouping" then groupingLoop else [])
+
 /-- the table entry of one subscription is faithful -/
 def rowFaithful (r : Row) : Bool :=
   let cr := decide (13 ≤ r.index)      -- SubscribeEvent sends indices ≥ SubscribeCommitrevealLogStartCommitreveal to crTable
@@ -323,6 +493,7 @@ def rowFaithful (r : Row) : Bool :=
     watchMethods.contains { pkg := pkg, name := e.watch, sink := e.binding, event := r.event } &&
     e.target == r.event &&
     e.commonType == "LogCommon" && e.common == commonLiteral && e.sent == "log" && e.counts == (1, 1, 1) &&
+    e.body == expectedBody r.event cr &&                  -- the whole function, statement by statement (round 5, review E #3)
     (match bindingStructs.find? (fun s => s.name == e.binding), nodeStructs.find? (fun s => s.name == e.target) with
      | some b, some n =>
        e.assigns.map (·.1) == n.fields.map (·.1) &&      -- EVERY field of the node struct, once, nothing else
@@ -338,10 +509,81 @@ the table `SubscribeEvent` dispatches that index to; calls the `Watch` method of
 event on a channel of the same binding type; builds the node struct of the same event, assigns
 EVERY field of it from the same-named binding field of the same type (admitted: the renaming
 in `renamed`, and `LogGrouping.NodeId := map Address.Bytes`); fills `LogCommon` from
-`Raw.TxHash / BlockNumber / Removed / Raw`; and sends exactly that value. -/
+`Raw.TxHash / BlockNumber / Removed / Raw`; and sends exactly that value; and the entry function consists of
+exactly the statements of `entryBodyLines` (nothing before, between or after the two literals touches a field). -/
 theorem table_faithful : subscribedRows.all rowFaithful = true := by decide
 
 example : rowFaithful ⟨"SubscribeLogUrl", 2, "LogUrl"⟩ = true ∧ rowFaithful ⟨"SubscribeLogUrl", 2, "LogUpdateRandom"⟩ = false := by
+  decide
+
+/-- a statement after the literal (review E, T1b) is no longer invisible -/
+example : entryBodyLines "p" "r" [] ≠ entryBodyLines "p" "r" ["if len(l.DataSource) > 8192 {", "l.DataSource = \"\"", "}"] := by decide
+
+/-- **the de-duplication window** (regenerated; review E #5): `firstEvent` has exactly one timer call,
+`time.After(firstEventWindow)`; the package variable it names is initialised to a constant product that
+evaluates to 1 500 000 ms = 1500 s and is assigned nowhere in eth_subscribe.go.  This is the window of
+`interleaving_once_window` / `interleaving_once_timers` / `redelivered_after_window`. -/
+theorem dedup_window_is_1500s :
+    dedupTimerCalls = ["time.After(firstEventWindow)"] ∧ dedupWindowMillis = 1500 * 1000 ∧ dedupWindowAssignments = 0 := by
+  decide
+
+/-- **firstEvent, the whole function** (regenerated, go/printer text): the statements `Model/Events.lean` transcribes —
+non-`*LogCommon` ignored, removed skipped, identity = sha256(data ‖ big(BlockN).Bytes()) ‖ TxHash ‖ be64(Index) with the
+FULL `uint64(content.Raw.Index)`, the `== 0` test and the store of `BlockN` in ONE critical section of `mu`, delivery of
+`content.log`, one timer goroutine per delivered log whose `delete` holds the same `mu`. -/
+theorem firstEvent_shape : firstEventBody =
+    ["func firstEvent(ctx context.Context, source chan interface{}) (out chan interface{}) {",
+      "out = make(chan interface{})",
+      "go func() {",
+      "defer close(out)",
+      "var mu sync.Mutex",
+      "visited := make(map[string]uint64)",
+      "for {",
+      "select {",
+      "case <-ctx.Done():",
+      "return",
+      "case event, ok := <-source:",
+      "if !ok {",
+      "return",
+      "}",
+      "if content, ok := event.(*LogCommon); ok {",
+      "if content.Removed {",
+      "continue",
+      "}",
+      "var bytes []byte",
+      "bytes = append(bytes, content.Raw.Data...)",
+      "bytes = append(bytes, new(big.Int).SetUint64(content.BlockN).Bytes()...)",
+      "nHash := sha256.Sum256(bytes)",
+      "var logIndex [8]byte",
+      "binary.BigEndian.PutUint64(logIndex[:], uint64(content.Raw.Index))",
+      "identity := string(nHash[:]) + string(content.Raw.TxHash[:]) + string(logIndex[:])",
+      "mu.Lock()",
+      "first := visited[identity] == 0",
+      "if first {",
+      "visited[identity] = content.BlockN",
+      "}",
+      "mu.Unlock()",
+      "if first {",
+      "select {",
+      "case out <- content.log:",
+      "case <-ctx.Done():",
+      "}",
+      "go func(identity string) {",
+      "select {",
+      "case <-ctx.Done():",
+      "case <-time.After(firstEventWindow):",
+      "mu.Lock()",
+      "delete(visited, identity)",
+      "mu.Unlock()",
+      "}",
+      "}(identity)",
+      "}",
+      "}",
+      "}",
+      "}",
+      "}()",
+      "return",
+      "}"] := by
   decide
 
 /-- observation on the entries the node does NOT subscribe to: the faithful ones, and the ones that are not
